@@ -20,8 +20,14 @@ type numPtrG[T any] struct {
 type numSliceG[T any] struct {
 	V []T `"=" (@Num ","?)*`
 }
+type numMultiG[T any] struct {
+	V []T `"=" @( Num Num Num )`
+}
 type namedI16 int16
 type namedF32 float32
+type namedI64 int64
+type namedU64 uint64
+type namedF64 float64
 
 var numLexer = lexer.MustSimple([]lexer.SimpleRule{
 	{"Num", `[0-9a-zA-Z_.+][0-9a-zA-Z_.+\-]*`},
@@ -68,6 +74,11 @@ func numCheck[T any](res *xResult, name, kind string, bits int) {
 		res.violate("Build numSliceG[%s]: %v", name, err)
 		return
 	}
+	pm, err := participle.Build[numMultiG[T]](participle.Lexer(numLexer), participle.Elide("Whitespace", "Comment"))
+	if err != nil {
+		res.violate("Build numMultiG[%s]: %v", name, err)
+		return
+	}
 	for _, text := range numTexts {
 		for _, neg := range []string{"", "-", "- ", "-/*c*/ "} {
 			if neg != "" && kind == "uint" && text != "0" {
@@ -105,6 +116,16 @@ func numCheck[T any](res *xResult, name, kind string, bits int) {
 		} else if err == nil {
 			res.violate("[]%s from %q: accepted (%v) although strconv rejects %q", name, input, vs.V, text)
 		}
+		// one capture that yields several values: each keeps its own value
+		if ok1 && ok2 {
+			want3, ok3 := numOracle(kind, bits, "1")
+			input := "=" + text + " 7 1"
+			res.Evaluations++
+			vm, err := pm.ParseString("f", input)
+			if ok3 && (err != nil || len(vm.V) != 3 || fmt.Sprint(vm.V[0]) != want1 || fmt.Sprint(vm.V[1]) != want2 || fmt.Sprint(vm.V[2]) != want3) {
+				res.violate("[]%s from one capture over %q: got %v, %v; strconv gives [%s %s %s]", name, input, vm.V, err, want1, want2, want3)
+			}
+		}
 	}
 	if len(res.Samples) < 6 {
 		res.Samples = append(res.Samples, fmt.Sprintf("%s: %d texts x {plain, -, '- ', '-/*c*/ '} + slice form", name, len(numTexts)))
@@ -138,7 +159,7 @@ func checkNum(res *xResult, name, input, got string, err error, want string, ok 
 // TestVerif_C17_NumericOracle: numeric captures agree with strconv for every numeric kind.
 func TestVerif_C17_NumericOracle(t *testing.T) {
 	res := &xResult{Check: "numeric captures vs strconv", Property: "C17", Exhaustive: true,
-		Bound: fmt.Sprintf("%d texts (boundary values of every width, base prefixes, underscores, floats, junk) x {plain, '-' prefix token, '-' then elided whitespace, '-' then elided comment} x 13 field types (all int/uint/float kinds, a named int16 and float32), each as T, *T and []T", len(numTexts)),
+		Bound: fmt.Sprintf("%d texts (boundary values of every width, base prefixes, underscores, floats, junk) x {plain, '-' prefix token, '-' then elided whitespace, '-' then elided comment} x 17 field types (all int/uint/float kinds, named int16 / float32 / int64 / uint64 / float64), each as T, *T, []T filled by several captures and []T filled by one capture of three tokens", len(numTexts)),
 		Rule:  "distinct (field type, input) pairs; non-trivial = strconv rejects the text or several tokens are joined"}
 	_ = math.MaxInt8
 	_ = os.Getenv
@@ -156,5 +177,8 @@ func TestVerif_C17_NumericOracle(t *testing.T) {
 	numCheck[float64](res, "float64", "float", 64)
 	numCheck[namedI16](res, "namedI16", "int", 16)
 	numCheck[namedF32](res, "namedF32", "float", 32)
+	numCheck[namedI64](res, "namedI64", "int", 64)
+	numCheck[namedU64](res, "namedU64", "uint", 64)
+	numCheck[namedF64](res, "namedF64", "float", 64)
 	res.emit(t)
 }
